@@ -80,6 +80,11 @@ def gen_case(seed, *, nsess=None):
     }
     if rnd.random() < 0.3:
         case["cut"] = {"session": rnd.randrange(n), "k": rnd.randrange(1, 120), "how": rnd.choice(["rst", "fin"])}
+    if rnd.random() < 0.3:
+        case["manager"] = "slow"
+        case["idle"] = None  # (the conservation probe itself takes seconds with a slow manager)
+        if rnd.random() < 0.7:
+            case["cut"] = {"session": rnd.randrange(n), "k": rnd.randrange(1, 120), "how": rnd.choice(["rst", "fin"])}
     return case
 
 
@@ -114,6 +119,13 @@ def run_case(case):
         scenario.apply_net(world.net, net)
         users = scenario.build_users(users_spec)
         from simftp import fs as simfs
+
+        if case.get("manager") == "slow":
+            # a user manager whose lookups / logouts suspend (a database): sessions can end while
+            # one of its calls is in flight
+            from simftp import usermgr
+
+            users = usermgr.build("slow", users, world.rng("usermgr"))
 
         server = BoomServer(users, path_io_factory=simfs.make_spy(aioftp.MemoryPathIO, world.fsctl), maximum_connections=limit, idle_timeout=idle, wait_future_timeout=1.0)
         world.server = server
@@ -368,13 +380,17 @@ def run_case(case):
                         cnt = sum(1 for v in attached.values() if v == key)
                         mx = limits_by_name.get(key)
                         peak_user[key] = max(peak_user.get(key, 0), cnt)
-                        if mx is not None and cnt > mx:
+                        if mx is not None and cnt > mx and case.get("manager") != "slow":
+                            # (with a suspending manager a re-login gives its slot back some time
+                            # before the wire shows anything: only the quiescent checks apply)
                             viol.append({"clause": "user-limit-exceeded", "subject": f"{key}:max={mx}", "detail": f"{cnt} sessions attached to user {key} concurrently (limit {mx})"})
                     elif "too much connections" in txt:
                         key = name if name in limits_by_name else None
                         cnt = sum(1 for v in attached.values() if v == key) + sum(1 for (t0, k0) in just_closed if k0 == key and t0 >= vt - 1e-9)
                         mx = limits_by_name.get(key)
-                        if mx is None or cnt < mx:
+                        if (mx is None or cnt < mx) and case.get("manager") != "slow":
+                            # (with a suspending manager a slot is given back some time after the
+                            # wire shows the session gone: only the quiescent checks apply)
                             viol.append({"clause": "refused-below-user-limit", "subject": f"{key}:max={mx}", "detail": f"530 too much connections for {key} although only {cnt} sessions were attached (limit {mx})"})
         info["max_admitted"] = max_admitted
         seen = set()
